@@ -22,6 +22,16 @@ for p in props:
             pid, "static rules for this property are not implemented yet in this tree (planned clauses: DESIGN.md section 2); nothing is claimed")})
         continue
     mod = importlib.import_module(pid.lower())
+    # clauses that were added after the module's summary text was written (or that are shared from a sibling property):
+    # taken from the rule list of the last evidence file, so the manifest names every clause the check evaluates
+    extra = ""
+    try:
+        ev = json.load(open(os.path.join(VERIF, "evidence", pid + ".json")))
+        more = [r for r in ev["coverage"]["rules"] if r["id"] not in mod.EXPLANATION]
+        if more:
+            extra = " Further clauses evaluated by the same check: " + " ".join(f"{r['id']} {r['text'].rstrip('.')}." for r in more)
+    except (OSError, KeyError, ValueError):
+        pass
     checks.append({
         "property_id": pid,
         "quick_cmd": f"./check {pid} quick",
@@ -33,7 +43,7 @@ for p in props:
         "level_claimed": {
             "category": "other",
             "text": "Clause-wise static decision of necessary conditions, not of the behaviour: " + mod.EXPLANATION
-                    + " Not decided: " + "; ".join(getattr(mod, "NOT_DECIDED", [])) + ".",
+                    + extra + " Not decided: " + "; ".join(getattr(mod, "NOT_DECIDED", [])) + ".",
             "design_ref": f"DESIGN.md section 2, {pid}",
         },
         "level_note": "Trusted base: " + "; ".join(mod.ASSUMPTIONS)
